@@ -53,6 +53,8 @@ def run(ck):
     ck.clause("C02.9", "RefContigID names the map of every listed label: records are joined only on the same reference and strand "
                        "(as C08.4)")
     c08._eligibility(ck, {}, None, rule="C02.9", wiring=False)
+    from .c17 import frame_integrity
+    frame_integrity(ck, "C02.13")      # a label row dropped while reading shifts every later label number of that map
     records_frozen(ck, "C02.11")
     ck.clause("C02.12", "a joined record is built with the strand of its parts: Orientation and the exchange of query start / end follow "
                         "the strand the listed pairs were made on (as C08.6)")
@@ -79,8 +81,8 @@ def records_frozen(ck, rule):
     p = ck.ctx.p
     n_fn = 0
     for f in p.nontest_functions():
-        if f.is_lambda or not f.module.name.startswith("src.") or f.module.name.startswith("src.diagnostic"):
-            continue
+        if f.is_lambda or not f.module.name.startswith("src."):
+            continue                      # the plotters and other diagnostics included: they run inside the worker, on the row that is written later
         n_fn += 1
         in_init = f.name in ("__init__", "__post_init__", "__new__")
 
@@ -124,7 +126,7 @@ def records_frozen(ck, rule):
                              f"`{ast.unparse(node.func.value)}` is changed in place by .{node.func.attr}(): the record's header was "
                              "derived from the previous content", found=ast.unparse(node)[:160], required="a new list / a new record")
     ck.ok(rule, "records-frozen", "src/", "no function outside a constructor stores into a record's content or header", f"{n_fn} functions")
-    ck.floor("C02.11 functions scanned", n_fn, 150)
+    ck.floor(f"{rule} functions scanned", n_fn, 150)
 
 
 # ---------------------------------------------------------------------------------------------------------- C02.1
@@ -181,6 +183,8 @@ def column_table(ck, w, r, rule):
         construct = f"column:{col}"
         if col == "Orientation" and orientation_column(ck, rule, w, where_frame):
             continue
+        if col == "Confidence" and rule.startswith("C18"):
+            confidence_column(ck, rule, w, where_frame)       # the round-trip clause of C18 ("confidence to two decimals"); also C04.14
         if len(wa) != 1:
             v = w.record_values[col]
             indirect = [x for x in T.subterms(v) if x[0] == "idx" or (x[0] == "mcall" and x[2] in ("get", "__getitem__"))]
@@ -215,6 +219,28 @@ def column_table(ck, w, r, rule):
             ck.judge(fam is None, rule, f"reader-binding:{pname}", r.row_parser.where,
                      f"column {c} is bound to parameter {pname} of the same role",
                      found=f"{c} -> {pname} conflict in {fam}" if fam else None)
+
+
+def confidence_column(ck, rule, w, where_frame=None) -> bool:
+    """The Confidence column carries the score with two decimals (the XMAP convention the reader's round-trip clause relies on;
+    scores have hundredths as soon as --distancePenaltyMultiplier has): a coarser format loses what the record's score was."""
+    import re as _re
+    v = w.record_values_inl.get("Confidence", w.record_values.get("Confidence"))
+    if v is None:
+        return False
+    fmt = _format_spec(v)
+    wf = where_frame or where(w.fn, w.frame_node)
+    if fmt is None:
+        return False
+    m = _re.search(r"\.(\d+)f\}", fmt)
+    if m and int(m.group(1)) < 2:
+        ck.violation(rule, "column:Confidence:precision", wf,
+                     f"Confidence is written with {m.group(1)} decimal(s): the score of a record has hundredths (coordinates with one "
+                     "decimal times a fractional --distancePenaltyMultiplier), so the file no longer says what the score was",
+                     found=fmt, required="{:.2f}")
+        return True
+    ck.ok(rule, "column:Confidence:precision", wf, "Confidence is written with two decimals", fmt)
+    return False
 
 
 def orientation_column(ck, rule, w, where_frame=None) -> bool:
@@ -277,6 +303,11 @@ def entry_id(ck, w, rule):
         ck.violation(rule, "writeAlignments:index", wf, "data frame has no explicit index: XmapEntryID would count from 0",
                      found="default RangeIndex(0..n-1)", required="1..len(rows)")
         return
+    for chain, ev in w.reordered:
+        ck.violation(rule, "writeAlignments:index:moved", where(fn, ev.node),
+                     f"the frame is passed through .{'/.'.join(reversed(chain))}() after its index 1..n was set: the index travels with the "
+                     "rows, so XmapEntryID no longer counts 1, 2, 3, ... down the file (or rows are missing)",
+                     found=T.show(ev.term[1])[-160:], required="DataFrame(..., index=RangeIndex(1, n + 1)).to_csv(...)")
     n = T.mk_call("len", [w.rows_term])
     want_stop = T.p_add(n, C(1))
     start = stop = None
